@@ -668,8 +668,9 @@ def f_list(rng, sid):
         h = "".join(k for k in "wrxt" if rng.random() < 0.5)
         if implicit:
             h = "w" if "w" in h else ""
-        cmds.append(Cmd(b"+C%d" % i + bytes(rng.choice(gen.ALPHA) for _ in range(rng.randint(0, 6))),
-                        None if rng.random() < 0.5 else bytes(rng.choice(b"abc def") for _ in range(rng.randint(0, 14))),
+        # now and then a name so long that its command-list line does not fit the smaller buffers
+        cmds.append(Cmd(b"+C%d" % i + bytes(rng.choice(gen.ALPHA) for _ in range(rng.randint(0, 6) if rng.random() < 0.85 else rng.randint(8, 22))),
+                        None if rng.random() < 0.5 else bytes(rng.choice(b"abc def%%d") for _ in range(rng.randint(0, 14))),
                         h, vs, only_test=rng.random() < 0.15, disable=rng.random() < 0.15, implicit=implicit, group=0 if (ng == 1 or i < max(1, ncmd // 2)) else 1))
     cmds.sort(key=lambda c: c.group)
     for c in cmds:
@@ -748,7 +749,7 @@ def f_fit(rng, sid):
         init = init[:size]
         vs.append((t, size, init, rng.choice([0, 0, 0, 1, 2]), None if rng.random() < 0.4 else bytes(rng.choice(b"abcxyz_") for _ in range(rng.choice([1, 2, 3, 3, 18, 19, 20, 24, 31, 40])))))
     name = b"+F" + bytes(rng.choice(gen.ALPHA) for _ in range(rng.randint(0, 4)))
-    desc = None if rng.random() < 0.5 else bytes(rng.choice(b"abc def") for _ in range(rng.randint(0, 8)))
+    desc = None if rng.random() < 0.5 else bytes(rng.choice(b"abc def%%d") for _ in range(rng.randint(0, 8)))
     kind = rng.choice(["read", "read", "test", "list"])
     vars_ = [Var(t, i, size, acc, nm) for i, (t, size, init, acc, nm) in enumerate(vs)]
     c = Cmd(name, desc, "x" if kind == "list" else "", vars_)
@@ -961,7 +962,7 @@ PLAN = {
     "C10": [("ret", 200, 3000), ("listevt", 40, 400), ("report", 30, 300), ("lines", 30, 300), ("mixed", 30, 300)],
     "C11": [("evt", 60, 700), ("mixed", 60, 700), ("hold", 40, 400), ("sched", 30, 300), ("list", 20, 200), ("report", 30, 300)],
     "C12": [("sched", 100, 1200), ("mixed", 30, 300)],
-    "C13": [("evt", 100, 1200), ("mixed", 40, 400), ("hold", 20, 200)],
+    "C13": [("evt", 100, 1200), ("mixed", 40, 400), ("hold", 20, 200), ("mutex", 30, 300)],
     "C14": [("hold", 100, 1200), ("holdtick", 10, 100), ("mixed", 40, 400)],
     "C15": [("mixed", 60, 700), ("evt", 50, 500), ("lines", 30, 300), ("hold", 20, 200), ("list", 10, 100)],
     "C16": [("mutex", 100, 1200), ("mixed", 40, 400)],
